@@ -56,6 +56,23 @@ class VLoop(base_events.BaseEventLoop):
     def _write_to_self(self):
         pass
 
+    def run_in_executor(self, executor, func, *args):
+        """Executor jobs are one more kind of callback under the scheduler's control: the job runs in a later loop pass of
+        its own (never in a real thread, whose completion time nobody would own), its result arrives through the future."""
+        fut = self.create_future()
+
+        def job():
+            if fut.cancelled():
+                return
+            try:
+                r = func(*args)
+            except BaseException as e:     # noqa - handed to the awaiting coroutine, as an executor would
+                fut.set_exception(e)
+            else:
+                fut.set_result(r)
+        self.call_soon(job)
+        return fut
+
     def add_reader(self, fd, callback, *args):
         self.readers[fd] = (callback, args)
 
